@@ -48,6 +48,12 @@ class Ctx:
         self.opaque = set()       # class-typed locals (ByteString iv, ...): never read by translated code, writes to them are skipped
         self.call_sites = {}      # calls that take an opaque local: one uninterpreted function per call site
         self.int32 = set()        # locals declared int and initialised from a 64-bit value (kept sign-extended)
+        self.trace = False        # trace mode: calls on the stateful collaborators (handle manager, object, transaction) are effects
+        self.sets_names = {}
+        self.lift = False         # lifted mode: every continuation is a definition of its own (small terms for stepwise proofs)
+        self.lifted = []
+        self.kfv = {}
+        self.ptr_params = []      # pointer parameters whose pointee is tracked as the pseudo-variable drf_<p> (trace mode)
 
     def thunk(self, body, vars=()):
         # vars: [(identifier, type)] assigned inside the construct the continuation follows: passed explicitly
@@ -58,7 +64,25 @@ class Ctx:
 
     def callk(self, k, vars=()):
         vs = ''.join('%s ' % v for (v, t) in vars)
+        if self.lift:
+            return '(%s e %s%sacc)' % (k, ''.join('%s ' % v for (v, t) in self.kfv[k]), vs)
         return '(%s %sacc)' % (k, vs) if self.eff else '(%s %stt)' % (k, vs)
+
+    def bindk(self, kn, krest, kvars, scope, inner):
+        """the continuation kn (what follows an if / switch) with the term `inner` that uses it.  Ordinarily a local
+        definition `let kn := fun .. => krest in inner`; in lifted mode a definition of its own, whose parameters are the
+        environment record, the variables in scope that krest mentions, the variables the construct assigns, and acc"""
+        if not self.lift:
+            return '(let %s := %s in %s)' % (kn, self.thunk(krest, kvars), inner)
+        return inner
+
+    def plan_k(self, kn, krest, kvars, scope):
+        # free variables of the continuation: names in scope at the construct that krest mentions (over-approximated)
+        kv = {v for (v, t) in kvars}
+        ext = {i for (i, _) in self.externs}
+        self.kfv[kn] = [(ident(v), scope[v]) for v in sorted(scope) if ident(v) not in kv and ident(v) not in ext and ident(v) != 'acc' and uses_name(krest, ident(v))]
+        ps = ''.join('(%s : %s) ' % (v, t) for (v, t) in self.kfv[kn] + list(kvars))
+        self.lifted.append('Definition %s (e : env) %s(acc : list (N * N)) : (N * list (N * N)) :=\n    %s.' % (kn, ps, krest))
 
     def ret(self, v):
         if self.eff and getattr(self, 'out_params', None):
@@ -67,6 +91,11 @@ class Ctx:
                               for i, n in enumerate(self.out_params))
             return '(%s, %s :: acc)' % (v, fin)
         return '(%s, acc)' % v if self.eff else v
+
+    def ifret(self):
+        # trace mode: the type of a statement-level `if` is written out (the elaborator otherwise takes minutes and tens of
+        # gigabytes on the deeply nested continuations of the longer functions)
+        return ' return (N * list (N * N))' if (self.trace and self.eff) else ''
 
     def extern(self, ident, kind):
         for (i, k) in self.externs:
@@ -140,6 +169,8 @@ def tr_e(c, e):
             return (ident(n), c.types[n])
         if n in c.consts:
             return ('%d' % c.consts[n], 'N')
+        if c.trace and n in c.opaque and srcname(n) in c.types:
+            return (srcname(n), 'N')
         raise Unsupported('free variable ' + n)
     if k == 'enumconst':
         n = e[1]
@@ -178,6 +209,8 @@ def tr_e(c, e):
         inner = e[2]
         while inner[0] == 'cast':
             inner = inner[2]
+        if inner[0] == 'var' and c.trace and drfname(inner[1]) in c.types:
+            return (drfname(inner[1]), 'N')
         if inner[0] == 'var':
             if inner[1] in c.written_derefs:
                 raise Unsupported('read of *%s after it was written' % inner[1])
@@ -242,15 +275,23 @@ def tr_e(c, e):
     if k == 'call' and c.havoc and e[1][0] == 'field' and e[1][1][0] == 'var' and e[1][1][1] in c.opaque and e[1][2].split('::')[-1] == 'size' and not e[2] \
             and szname(e[1][1][1]) in c.types:
         return (szname(e[1][1][1]), 'N')
+    if k == 'call' and c.trace and traced_kind(e) is not None and not getattr(c, 'in_traced', False):
+        raise Unsupported('call on a stateful collaborator in expression position: ' + repr(e[1])[:60])
     if k == 'call':
         name = callee_name(e[1])
         if c.havoc:
             # a default argument the caller did not write: a constant of the callee, which is an uninterpreted function of the
             # explicit arguments anyway
             e = (e[0], e[1], [a for a in e[2] if a != ('opaque', 'defaultarg')])
-        args = [('0', 'N') if (c.havoc and a[0] == 'var' and a[1] in c.opaque) else tr_e(c, a) for a in e[2]]
+        if c.trace:
+            # class-typed locals go in as their content pseudo-variable; a local handed over by non-const reference is an
+            # output (its new content is a function of the other arguments, see `srchavoc`), not an input
+            args = [(srcname(a[1]), 'N') if (a[0] == 'var' and a[1] in c.opaque and srcname(a[1]) in c.types) else
+                    (('0', 'N') if (a[0] in ('var', 'refarg') and a[1] in c.opaque) else tr_e(c, a)) for a in e[2]]
+        else:
+            args = [('0', 'N') if (c.havoc and a[0] == 'var' and a[1] in c.opaque) else tr_e(c, a) for a in e[2]]
         rty = c.extern_types.get(name, 'N')
-        if c.havoc and any(a[0] in ('refarg', 'var') and a[1] in c.opaque for a in e[2]):
+        if c.havoc and any(a[0] in ('refarg', 'var') and a[1] in c.opaque and not (c.trace and (a[0] == 'refarg' or srcname(a[1]) in c.types)) for a in e[2]):
             # a class-typed local goes in (by value or by reference) and is rendered as 0: the result may depend on its
             # content, so this call site gets an uninterpreted function of its own (two calls are not assumed equal)
             site = c.call_sites.setdefault(repr(e), len(c.call_sites) + 1)
@@ -323,6 +364,104 @@ def szname(v):
     return 'szv_' + ident(v)
 
 
+def srcname(v):
+    return 'src_' + ident(v)
+
+
+def drfname(v):
+    return 'drf_' + ident(v)
+
+
+T64 = 18446744073709551616
+TRACE_TAGS = {'getObject': T64 - 40, 'hm_destroyObject': T64 - 41, 'destroyObject': T64 - 42, 'startTransaction': T64 - 43,
+              'commitTransaction': T64 - 44, 'abortTransaction': T64 - 45, 'CreateObject': T64 - 46}
+
+
+def out_tag(c, p):
+    # `*p = v` for the i-th parameter p: an effect tagged 2^64-96-i
+    return T64 - 96 - c.param_order.index(p)
+
+
+def strip_casts(e):
+    while e[0] == 'cast' or (e[0] == 'un' and e[1] == 'tobool'):
+        e = e[2]
+    return e
+
+
+def traced_kind(e):
+    """'getObject' | 'hm_destroyObject' | 'destroyObject' | '...Transaction' | 'setAttribute' | 'CreateObject' | None"""
+    if e[0] != 'call' or e[1][0] != 'field':
+        return None
+    e = (e[0], e[1], [a for a in e[2] if a != ('opaque', 'defaultarg')])
+    m = e[1][2].split('::')[-1]
+    base = e[1][1]
+    hm = base[0] == 'field' and base[1][0] == 'this' and base[2].split('::')[-1] == 'handleManager'
+    if hm and m == 'getObject' and len(e[2]) == 1:
+        return 'getObject'
+    if hm and m == 'destroyObject' and len(e[2]) == 1:
+        return 'hm_destroyObject'
+    if base[0] == 'var' and m in ('destroyObject', 'startTransaction', 'commitTransaction', 'abortTransaction') and not e[2]:
+        return m
+    if base[0] == 'var' and m == 'setAttribute' and len(e[2]) == 2:
+        return 'setAttribute'
+    if base[0] == 'this' and m == 'CreateObject':
+        return 'CreateObject'
+    return None
+
+
+def traced(c, e):
+    """(event term, result term, result type) of a call on a stateful collaborator (trace mode)"""
+    kind = traced_kind(e)
+    c.in_traced = True
+    try:
+        if kind == 'setAttribute':
+            a = as_N(c, e[2][0])
+            v = e[2][1]
+            while v[0] in ('ctor', 'cast') and len(v[2] if v[0] == 'ctor' else [v[2]]) == 1:
+                v = v[2][0] if v[0] == 'ctor' else v[2]
+            if v[0] == 'var' and v[1] in c.osattrs:
+                val = c.osattrs[v[1]]
+            elif v[0] == 'bool':
+                val = '1' if v[1] else '0'
+            elif v[0] == 'var' and v[1] in c.opaque:
+                if srcname(v[1]) not in c.types:
+                    raise Unsupported('content of %s is not tracked' % v[1])
+                val = srcname(v[1])
+            else:
+                val = as_N(c, v)
+            ev = '(%s, %s)' % (a, val)
+        elif kind in ('getObject', 'hm_destroyObject'):
+            ev = '(%d, %s)' % (TRACE_TAGS[kind], as_N(c, e[2][0]))
+        elif kind == 'CreateObject':
+            ev = '(%d, %s)' % (TRACE_TAGS[kind], as_N(c, e[2][-1]))
+        else:
+            ev = '(%d, %s)' % (TRACE_TAGS[kind], ident(e[1][1][1]))
+        if kind in ('getObject', 'CreateObject'):
+            res, ty = tr_e(c, e)          # an uninterpreted function of the arguments
+        else:
+            # what a state-changing call answers is not a function of its arguments: a fresh value per call site
+            c.fresh += 1
+            res, ty = 'hv%d_%s_ok' % (c.fresh, kind), 'bool'
+            c.extern(res, 'bool')
+    finally:
+        c.in_traced = False
+    return ev, res, ty
+
+
+def passed_ptrs(c, x):
+    """tracked pointer parameters handed on to a callee somewhere in the IR tree x (the callee may write through them)"""
+    out = set()
+
+    def f(n):
+        if n[0] == 'call':
+            for a in n[2]:
+                a = strip_casts(a) if isinstance(a, tuple) else a
+                if isinstance(a, tuple) and a[0] == 'var' and a[1] in c.ptr_params:
+                    out.add(a[1])
+    walk_ir(x, f)
+    return out
+
+
 def fresh_size(c, v, declare=True):
     c.fresh += 1
     nm = 'hv%d_%s_size' % (c.fresh, ident(v))
@@ -369,8 +508,13 @@ def size_havoc(c, vs, body):
     return ''.join('(let %s := %s in ' % b for b in binds) + inner + ')' * len(binds)
 
 
+TRACE_OPAQUE = False     # trace mode: key / parameter objects held by value are class-typed locals too
+
+
 def is_opaque_type(ty):
     ty = ty.replace('const ', '')
+    if TRACE_OPAQUE and re.fullmatch(r'(Symmetric|AES|DES|RSA|DSA|DH|EC|ED|GOST)\w*(Key|Parameters)|SymmetricKey|AsymmetricParameters', ty):
+        return True
     return ty in OPAQUE_TYPES or ty.endswith('_PARAMS') or bool(re.search(r'\[\d*\]$', ty))
 
 
@@ -440,7 +584,13 @@ def addr_out_call(c, s):
         if s[3] is None or is_opaque_type(s[2]):
             return None
         target, call = s[1], s[3]
+    neg = False
+    while c.trace and call is not None and call[0] == 'un' and call[1] in ('!', 'tobool'):
+        neg = neg != (call[1] == '!')
+        call = call[2]
     if call is None or call[0] != 'call':
+        return None
+    if c.trace and traced_kind(call) is not None:
         return None
     outs = [a[2][1] for a in call[2] if a[0] == 'un' and a[1] == '&' and a[2][0] == 'var' and a[2][1] in c.types]
     if not outs or any(a[0] == 'refarg' and a[1] not in c.opaque for a in call[2]):
@@ -449,7 +599,10 @@ def addr_out_call(c, s):
         c.types[target] = 'bool' if s[2] in BOOL_TYPES else 'N'
     c.fresh += 1
     site = ('var', '%s_at%d' % (callee_name(call[1]), c.fresh))
-    newcall = ('call', site, [('int', 0) if (a[0] == 'un' and a[1] == '&' and a[2][0] == 'var' and a[2][1] in c.types) else a for a in call[2]])
+    isaddr = lambda a: a[0] == 'un' and a[1] == '&' and a[2][0] == 'var' and (a[2][1] in c.types or (c.trace and a[2][1] in c.opaque))
+    newcall = ('call', site, [('int', 0) if isaddr(a) else a for a in call[2]])
+    if neg:
+        newcall = ('un', '!', newcall)
     return (target, newcall, outs)
 
 
@@ -528,6 +681,154 @@ def always_exits(ss):
     return False
 
 
+def check_shadow(c, kn, branches):
+    """lifted mode: the call of a continuation names the variables it needs; a branch must not declare a local of one of those
+    names (the call would pass the inner one)"""
+    need = {v for (v, t) in c.kfv[kn]}
+    bad = []
+
+    def f(n):
+        if n[0] == 'decl' and isinstance(n[1], str):
+            for nm in (ident(n[1]), szname(n[1]), srcname(n[1])):
+                if nm in need:
+                    bad.append(nm)
+    walk_ir(branches, f)
+    if bad:
+        raise Unsupported('a branch declares %s, which the code after the construct reads' % bad[0])
+
+
+def pseudo_assigned(c, x):
+    """content / pointee pseudo-variables that the IR tree x may re-bind (trace mode)"""
+    out = {srcname(v) for v in mutated_opaque(c, x)} | {drfname(p) for p in passed_ptrs(c, x)}
+
+    def f(n):
+        if n[0] == 'bin' and len(n) == 4 and n[1] == '=' and isinstance(n[2], tuple) and n[2][0] == 'un' and n[2][1] == '*' and n[2][2][0] == 'var' and n[2][2][1] in c.ptr_params:
+            out.add(drfname(n[2][2][1]))
+    walk_ir(x, f)
+    return out
+
+
+def trace_havoc(c, s, body):
+    """after a statement whose expression s[2] may have changed the class-typed locals s[1] and written through the pointer
+    parameters s[3]: the content of a local that the statement's top-level call took by non-const reference is that callee's
+    output, an uninterpreted function <callee>_out_<local> of the call's other arguments; any other changed content and every
+    pointee is a fresh universally quantified value"""
+    names, expr, ptrs = s[1], (s[2] if len(s) > 2 else None), (s[3] if len(s) > 3 else [])
+    top = expr
+    while top is not None and isinstance(top, tuple) and (top[0] == 'cast' or (top[0] == 'un' and top[1] in ('!', 'tobool'))):
+        top = top[2]
+    binds = []
+    asg = top
+    if top is not None and top[0] == 'bin' and top[1] == '=' and top[2][0] == 'var' and top[2][1] in c.types:
+        top = strip_casts(top[3])          # rv = f(.., out): the call is what matters for `out`
+    for v in names:
+        if srcname(v) not in c.types:
+            continue
+        term = None
+        if top is not None and top[0] == 'call' and traced_kind(top) is None and any(a == ('refarg', v) for a in top[2]):
+            saved_ext = list(c.externs)
+            try:
+                ins = [tr_e(c, a) for a in top[2] if not (a[0] == 'refarg' and a[1] in c.opaque)]
+                nm = '%s_out_%s' % (callee_name(top[1]), ident(v))
+                if ins:
+                    c.extern(nm, ('fun', [t for (_, t) in ins], 'N'))
+                    term = '(%s %s)' % (nm, ' '.join(a for (a, _) in ins))
+                else:
+                    c.extern(nm, 'N')
+                    term = nm
+            except Unsupported:
+                c.externs = saved_ext
+        elif top is not None and top[0] == 'bin' and top[1] in ('=', 'op=') and top[2] == ('var', v):
+            saved_ext = list(c.externs)
+            try:
+                term = as_N(c, top[3])           # x = <call returning the class type>: the call's (uninterpreted) value
+            except Unsupported:
+                c.externs = saved_ext
+        if term is None:
+            c.fresh += 1
+            term = 'hv%d_%s_src' % (c.fresh, ident(v))
+            c.extern(term, 'N')
+        binds.append((srcname(v), term))
+    for p_ in ptrs:
+        if drfname(p_) in c.types:
+            # what the callee left in *p: named after the callee (a second call of the same callee gets a number)
+            term = None
+            ctop = top
+            if ctop is not None and ctop[0] == 'bin' and ctop[1] == '=':
+                ctop = strip_casts(ctop[3])
+            if ctop is not None and ctop[0] == 'call':
+                try:
+                    base = '%s_sets_%s' % (callee_name(ctop[1]), ident(p_))
+                    c.sets_names[base] = c.sets_names.get(base, 0) + 1
+                    term = base if c.sets_names[base] == 1 else '%s_%d' % (base, c.sets_names[base])
+                except Unsupported:
+                    term = None
+            if term is None:
+                c.fresh += 1
+                term = 'hv%d_deref_%s' % (c.fresh, ident(p_))
+            c.extern(term, 'N')
+            binds.append((drfname(p_), term))
+    inner = body()
+    return ''.join('(let %s := %s in ' % b for b in binds) + inner + ')' * len(binds)
+
+
+def trace_stmt(c, s, rest, k_fall, k_break):
+    """trace mode: statements that call a stateful collaborator, or write through a tracked pointer parameter"""
+    k = s[0]
+    go = lambda: tr_s(c, rest, k_fall, k_break)
+    if k == 'if':
+        cond, neg = s[1], 0
+        while cond[0] == 'un' and cond[1] in ('!', 'tobool') or cond[0] == 'cast':
+            neg += 1 if (cond[0] == 'un' and cond[1] == '!') else 0
+            cond = cond[2]
+        if traced_kind(cond) is not None:
+            c.fresh += 1
+            cn = 'cnd%d' % c.fresh
+            nc = ('var', cn)
+            if neg % 2:
+                nc = ('un', '!', nc)
+            return tr_s(c, [('decl', cn, 'bool', cond), ('if', nc, s[2], s[3])] + list(rest), k_fall, k_break)
+        return None
+    if k == 'decl':
+        if s[3] is None or is_opaque_type(s[2]):
+            return None
+        call = strip_casts(s[3])
+        if traced_kind(call) is None:
+            return None
+        ev, res, ty = traced(c, call)
+        want = 'bool' if s[2] in BOOL_TYPES else 'N'
+        c.assigned_locals.add(s[1])
+        c.types[s[1]] = want
+        if ty != want:
+            res = ('(negb (%s =? 0))' % res) if want == 'bool' else ('(if %s then 1 else 0)' % res)
+        return '(let acc := %s :: acc in (let %s := %s in %s))' % (ev, ident(s[1]), res, go())
+    e = s[1]
+    if traced_kind(e) is not None:
+        ev, _, _ = traced(c, e)
+        return '(let acc := %s :: acc in %s)' % (ev, go())
+    if e[0] == 'bin' and e[1] == '=' and e[2][0] == 'var' and e[2][1] in c.types:
+        x = e[2][1]
+        rhs = strip_casts(e[3])
+        if rhs[0] == 'bin' and rhs[1] == '&&' and strip_casts(rhs[2]) == ('var', x) and traced_kind(strip_casts(rhs[3])) is not None:
+            # x = x && obj->f(..): the call is made only when x is still true
+            return tr_s(c, [('if', ('var', x), [('expr', ('bin', '=', ('var', x), strip_casts(rhs[3])))], [])] + list(rest), k_fall, k_break)
+        if traced_kind(rhs) is not None:
+            ev, res, ty = traced(c, rhs)
+            want = c.types[x]
+            if ty != want:
+                res = ('(negb (%s =? 0))' % res) if want == 'bool' else ('(if %s then 1 else 0)' % res)
+            return '(let acc := %s :: acc in (let %s := %s in %s))' % (ev, ident(x), res, go())
+    if e[0] == 'bin' and e[1] == '=' and e[2][0] == 'un' and e[2][1] == '*' and e[2][2][0] == 'var' and e[2][2][1] in c.ptr_params:
+        p_ = e[2][2][1]
+        v = as_N(c, e[3])
+        return '(let %s := %s in (let acc := (%d, %s) :: acc in %s))' % (drfname(p_), v, out_tag(c, p_), drfname(p_), go())
+    if e[0] == 'call' and traced_kind(e) is None and any(a[0] == 'refarg' and a[1] in c.opaque for a in e[2]) and rest and rest[0][0] == 'sizehavoc':
+        # f(.., out) with the result discarded: what it does to `out` is accounted for by the pseudo-statement that follows
+        tr_e(c, e)
+        return go()
+    return None
+
+
 def tr_s_inner(c, ss, k_fall, k_break):
     """term for executing ss; k_fall: term when control falls off the end; k_break: on `break`"""
     if not ss:
@@ -541,21 +842,28 @@ def tr_s_inner(c, ss, k_fall, k_break):
         # evaluate the expression first, then re-bind the local's size, then go on
         if k == 'if':
             m = mutated_opaque(c, [s[1]])
-            if m:
+            pp = passed_ptrs(c, [s[1]]) if c.trace else set()
+            if m or pp or (c.trace and mentions([s[1]], lambda x: x[0] == 'un' and len(x) == 3 and x[1] == '&' and isinstance(x[2], tuple) and x[2][0] == 'var' and x[2][1] in c.types)):
                 c.fresh += 1
                 cn = 'cnd%d' % c.fresh
-                return tr_s(c, [('decl', cn, 'bool', s[1]), ('sizehavoc', sorted(m)), ('if', ('var', cn), s[2], s[3])] + list(rest), k_fall, k_break)
+                return tr_s(c, [('decl', cn, 'bool', s[1]), ('sizehavoc', sorted(m), s[1], sorted(pp)), ('if', ('var', cn), s[2], s[3])] + list(rest), k_fall, k_break)
         elif k == 'switch':
-            if mutated_opaque(c, [s[1]]):
+            if mutated_opaque(c, [s[1]]) or (c.trace and passed_ptrs(c, [s[1]])):
                 raise Unsupported('switch on an expression that changes a class-typed local')
         elif k == 'expr' and not writes_only_opaque(c, s[1]):
             m = mutated_opaque(c, [s[1]])
-            if m and not (rest and rest[0][0] == 'sizehavoc'):
-                return tr_s(c, [s, ('sizehavoc', sorted(m))] + list(rest), k_fall, k_break)
+            pp = passed_ptrs(c, [s[1]]) if c.trace else set()
+            if (m or pp) and not (rest and rest[0][0] == 'sizehavoc'):
+                return tr_s(c, [s, ('sizehavoc', sorted(m), s[1], sorted(pp))] + list(rest), k_fall, k_break)
         elif k == 'decl' and not is_opaque_type(s[2]) and s[3] is not None:
             m = mutated_opaque(c, [s[3]])
-            if m and not (rest and rest[0][0] == 'sizehavoc'):
-                return tr_s(c, [s, ('sizehavoc', sorted(m))] + list(rest), k_fall, k_break)
+            pp = passed_ptrs(c, [s[3]]) if c.trace else set()
+            if (m or pp) and not (rest and rest[0][0] == 'sizehavoc'):
+                return tr_s(c, [s, ('sizehavoc', sorted(m), s[3], sorted(pp))] + list(rest), k_fall, k_break)
+    if c.trace and k in ('if', 'expr', 'decl'):
+        r = trace_stmt(c, s, rest, k_fall, k_break)
+        if r is not None:
+            return r
     if k == 'ret':
         if s[1] is None:
             raise Unsupported('void return')
@@ -595,6 +903,8 @@ def tr_s_inner(c, ss, k_fall, k_break):
         if eff is not None:
             return '(let acc := %s :: acc in %s)' % (eff, tr_s(c, rest, k_fall, k_break))
     if c.havoc and k == 'sizehavoc':
+        if c.trace:
+            return trace_havoc(c, s, lambda: size_havoc(c, s[1], lambda: tr_s(c, rest, k_fall, k_break)))
         return size_havoc(c, s[1], lambda: tr_s(c, rest, k_fall, k_break))
     if c.havoc and k == 'decl' and is_opaque_type(s[2]):
         c.opaque.add(s[1])
@@ -614,8 +924,24 @@ def tr_s_inner(c, ss, k_fall, k_break):
             if lazy:
                 sz = fresh_size(c, s[1], declare=False)
             c.types[szname(s[1])] = 'N'
-            extra = [('sizehavoc', sorted(mutated_opaque(c, [init]) - {s[1]}))] if init is not None and mutated_opaque(c, [init]) - {s[1]} else []
+            extra = [('sizehavoc', sorted(mutated_opaque(c, [init]) - {s[1]}), init, [])] if init is not None and mutated_opaque(c, [init]) - {s[1]} else []
+            srcv = None
+            if c.trace:
+                # its content is the pseudo-variable src_<name>: 0 when empty, the (uninterpreted) value of the initialiser
+                srcv = '0' if sz == '0' and (init is None or not init[2]) else None
+                if srcv is None:
+                    saved_ext = list(c.externs)
+                    try:
+                        srcv = as_N(c, init if init[0] != 'ctor' or len(init[2]) != 1 else init[2][0])
+                    except Unsupported:
+                        c.externs = saved_ext
+                        c.fresh += 1
+                        srcv = 'hv%d_%s_src' % (c.fresh, ident(s[1]))
+                        c.extern(srcv, 'N')
+                c.types[srcname(s[1])] = 'N'
             inner = tr_s(c, extra + list(rest), k_fall, k_break)
+            if srcv is not None:
+                inner = '(let %s := %s in %s)' % (srcname(s[1]), srcv, inner)
             if not uses_name(inner, szname(s[1])):
                 return inner
             if lazy:
@@ -629,8 +955,10 @@ def tr_s_inner(c, ss, k_fall, k_break):
                 return '(let %s := %s in %s)' % (szname(e[1][1][1]), as_N(c, e[2][0]), tr_s(c, rest, k_fall, k_break))
             except Unsupported:
                 pass
+        if c.trace:
+            return trace_havoc(c, ('sizehavoc', sorted(mutated_opaque(c, [e])), e, []), lambda: size_havoc(c, mutated_opaque(c, [e]), lambda: tr_s(c, rest, k_fall, k_break)))
         return size_havoc(c, mutated_opaque(c, [e]), lambda: tr_s(c, rest, k_fall, k_break))
-    if c.havoc and k == 'expr' and is_cleanup(s[1]):
+    if c.havoc and k == 'expr' and is_cleanup(s[1]) and not (c.trace and traced_kind(s[1]) is not None):
         return tr_s(c, rest, k_fall, k_break)
     if c.skip_setters and k == 'expr' and is_unread_setter(c, s[1]):
         return tr_s(c, rest, k_fall, k_break)
@@ -709,27 +1037,48 @@ def tr_s_inner(c, ss, k_fall, k_break):
             s = ('if', newcond, s[2], s[3])
             inner = tr_s_inner(c, [s] + list(rest), k_fall, k_break)
             return ''.join('(let %s := %s in ' % b for b in binds) + inner + ')' * len(binds)
+    if k == 'if' and c.trace and not getattr(c, 'in_if_try', False) and not mentions([s], lambda x: x[0] == 'call' and traced_kind(x) is not None):
+        # an `if` the fragment cannot follow (and that calls no stateful collaborator) is translated like a loop: what it
+        # may assign is fresh afterwards, and it may return
+        saved_state = (dict(c.types), list(c.externs), c.fresh, dict(c.call_sites), list(c.lifted), dict(c.kfv), dict(c.sets_names))
+        c.in_if_try = True
+        try:
+            c.depth += 1
+            try:
+                tr_s_inner(c, [s], 'DUMMY', k_break)
+            finally:
+                c.depth -= 1
+                c.in_if_try = False
+                c.types, c.externs, c.fresh, c.call_sites = dict(saved_state[0]), list(saved_state[1]), saved_state[2], dict(saved_state[3])
+                c.lifted, c.kfv, c.sets_names = list(saved_state[4]), dict(saved_state[5]), dict(saved_state[6])
+        except Unsupported:
+            return havoc_loop(c, s, rest, k_fall, k_break)
     if k == 'if':
         cond = as_bool(c, s[1])
         t_exit, e_exit = always_exits(s[2]), always_exits(s[3])
         if t_exit and e_exit:
             c.depth += 1
             try:
-                r = '(if %s then %s else %s)' % (cond, tr_s(c, s[2], None, k_break), tr_s(c, s[3], None, k_break))
+                r = '(if %s%s then %s else %s)' % (cond, c.ifret(), tr_s(c, s[2], None, k_break), tr_s(c, s[3], None, k_break))
             finally:
                 c.depth -= 1
             return r
         assigned = assigned_vars(s[2]) | assigned_vars(s[3])
         if c.havoc:
             assigned |= {szname(v) for v in mutated_opaque(c, [s[2], s[3]])}
+        if c.trace:
+            assigned |= pseudo_assigned(c, [s[2], s[3]]) | loop_writes(c, [s[2], s[3]])[0]
         kvars = [(ident(v), c.types[v]) for v in sorted(assigned) if v in c.types]
         saved = dict(c.types)
         krest = tr_s(c, rest, k_fall, k_break)
-        kvars = [kv for kv in kvars if not kv[0].startswith('szv_') or uses_name(krest, kv[0])]
+        kvars = [kv for kv in kvars if not kv[0].startswith(('szv_', 'src_', 'drf_')) or uses_name(krest, kv[0])]
         c.fresh += 1
         kn = 'k%d' % c.fresh
         types_after = dict(c.types)
         c.types = dict(saved)
+        if c.lift:
+            c.plan_k(kn, krest, kvars, saved)
+            check_shadow(c, kn, [s[2], s[3]])
         c.depth += 1
         try:
             a = tr_s(c, s[2], c.callk(kn, kvars), k_break)
@@ -738,17 +1087,21 @@ def tr_s_inner(c, ss, k_fall, k_break):
         finally:
             c.depth -= 1
         c.types = types_after
-        return '(let %s := %s in if %s then %s else %s)' % (kn, c.thunk(krest, kvars), cond, a, b)
+        return c.bindk(kn, krest, kvars, saved, '(if %s%s then %s else %s)' % (cond, c.ifret(), a, b)) if c.lift else \
+            '(let %s := %s in if %s%s then %s else %s)' % (kn, c.thunk(krest, kvars), cond, c.ifret(), a, b)
     if k == 'switch':
         v = as_N(c, s[1])
         body = s[2]
         saved = dict(c.types)
-        kvars = [(ident(x), c.types[x]) for x in sorted(assigned_vars(body) | ({szname(v) for v in mutated_opaque(c, [body])} if c.havoc else set())) if x in c.types]
+        kvars = [(ident(x), c.types[x]) for x in sorted(assigned_vars(body) | ({szname(v) for v in mutated_opaque(c, [body])} if c.havoc else set()) | ((pseudo_assigned(c, [body]) | loop_writes(c, [body])[0]) if c.trace else set())) if x in c.types]
         krest = tr_s(c, rest, k_fall, k_break)
-        kvars = [kv for kv in kvars if not kv[0].startswith('szv_') or uses_name(krest, kv[0])]
+        kvars = [kv for kv in kvars if not kv[0].startswith(('szv_', 'src_', 'drf_')) or uses_name(krest, kv[0])]
         c.fresh += 1
         kn = 'k%d' % c.fresh
         vn = 'sw%d' % c.fresh
+        if c.lift:
+            c.plan_k(kn, krest, kvars, saved)
+            check_shadow(c, kn, [body])
         # positions of labels
         groups = []   # (labels, start index)
         i = 0
@@ -789,8 +1142,10 @@ def tr_s_inner(c, ss, k_fall, k_break):
             if not labels:
                 continue
             test = ' || '.join('(%s =? %d)' % (vn, l) for l in labels)
-            term = '(if %s then %s else %s)' % (test, seg(start), term)
+            term = '(if %s%s then %s else %s)' % (test, c.ifret(), seg(start), term)
         c.types = dict(saved)
+        if c.lift:
+            return c.bindk(kn, krest, kvars, saved, '(let %s := %s in %s)' % (vn, v, term))
         return '(let %s := %s in let %s := %s in %s)' % (kn, c.thunk(krest, kvars), vn, v, term)
     raise Unsupported('statement ' + str(k))
 
@@ -800,10 +1155,12 @@ def tr_s(c, ss, k_fall, k_break):
     sequence (and everything after it) becomes the result parameter `rest`"""
     if c.prefix and c.depth == 0 and ss:
         saved_types, saved_ext, saved_fresh = dict(c.types), list(c.externs), c.fresh
+        saved_lift = (list(c.lifted), dict(c.kfv), dict(c.sets_names))
         try:
             return tr_s_inner(c, ss, k_fall, k_break)
         except Unsupported as e:
             c.types, c.externs, c.fresh = dict(saved_types), list(saved_ext), saved_fresh
+            c.lifted, c.kfv, c.sets_names = list(saved_lift[0]), dict(saved_lift[1]), dict(saved_lift[2])
             # translate only the head statement to see whether it is the culprit
             try:
                 c.prefix = False
@@ -817,6 +1174,7 @@ def tr_s(c, ss, k_fall, k_break):
                 c.depth -= 1
                 c.prefix = True
                 c.types, c.externs, c.fresh = dict(saved_types), list(saved_ext), saved_fresh
+                c.lifted, c.kfv, c.sets_names = list(saved_lift[0]), dict(saved_lift[1]), dict(saved_lift[2])
             if not head_ok:
                 c.stopped_at = repr(ss[0])[:100]
                 global LAST_STOP
@@ -898,6 +1256,12 @@ def havoc_loop(c, s, rest, k_fall, k_break):
             binds.append((ident(v), pn))
     c.written_derefs |= derefs
     szb = [(szname(v), fresh_size(c, v, declare=False)) for v in sorted(mutated_opaque(c, [s])) if szname(v) in c.types]
+    if c.trace:
+        if mentions([s], lambda x: x[0] == 'call' and traced_kind(x) is not None):
+            raise Unsupported('call on a stateful collaborator inside a loop')
+        for pv in sorted(pseudo_assigned(c, [s])):
+            if pv in c.types:
+                szb.append((pv, 'hv%d_%s' % (n, pv)))
     inner = tr_s(c, rest, k_fall, k_break)
     for b in szb:
         if uses_name(inner, b[0]):
@@ -914,10 +1278,10 @@ def havoc_loop(c, s, rest, k_fall, k_break):
             except Exception:
                 vals.add(None)
         if len(vals) == 1 and None not in vals and re.fullmatch(r'\d+|true|false', list(vals)[0]):
-            rv = list(vals)[0]              # every `return` inside the loop returns the same constant
+            rv = c.ret(list(vals)[0])       # every `return` inside the loop returns the same constant
         else:
             c.extern(rv, 'R')
-        inner = '(if %s then %s else %s)' % (ex, rv, inner)
+        inner = '(if %s%s then %s else %s)' % (ex, c.ifret(), rv, inner)
     return inner
 
 
@@ -926,7 +1290,7 @@ def _reset_stop():
     LAST_STOP = None
 
 
-def translate(name, params, ptypes, ret_type, body, consts, extern_types=None, drop_params=(), eff=False, prefix=False, havoc=False, skip_setters=False, rest_args=(), out_params=(), keep_unnamed=False):
+def translate(name, params, ptypes, ret_type, body, consts, extern_types=None, drop_params=(), eff=False, prefix=False, havoc=False, skip_setters=False, rest_args=(), out_params=(), keep_unnamed=False, trace=False, lift=False):
     """-> Coq source of `Definition gen_<name> ...`.  params/ptypes from the C++ declaration."""
     _reset_stop()
     c = Ctx(name, consts, ret_type in BOOL_TYPES, extern_types)
@@ -948,7 +1312,25 @@ def translate(name, params, ptypes, ret_type, body, consts, extern_types=None, d
         ty = 'bool' if t in BOOL_TYPES else 'N'
         c.types[p] = ty
         plist.append((ident(p), ty))
+    c.trace = trace
+    c.lift = lift
+    global TRACE_OPAQUE
+    TRACE_OPAQUE = bool(trace)
+    c.param_order = list(params)
+    if trace:
+        # pointees of pointer parameters that the body reads or writes as `*p`: pseudo-variables drf_<p>, initially the
+        # caller's value deref_<p>
+        for (p, t) in zip(params, ptypes):
+            if p and (t.endswith('*') or t.endswith('_PTR')) and mentions(body, lambda x: x[0] == 'un' and len(x) == 3 and x[1] == '*' and isinstance(x[2], tuple) and strip_casts(x[2]) == ('var', p)):
+                c.ptr_params.append(p)
+                c.types[drfname(p)] = 'N'
     term = tr_s(c, body, None, None)
+    for p in c.ptr_params:
+        if uses_name(term, drfname(p)):
+            c.extern('deref_' + ident(p), 'N')
+            term = '(let %s := %s in %s)' % (drfname(p), 'deref_' + ident(p), term)
+    if lift:
+        return lifted_module(c, name, plist, term)
     sig = []
     c.externs.sort(key=lambda x: x[0])
     for (i, kd) in c.externs:
@@ -963,6 +1345,41 @@ def translate(name, params, ptypes, ret_type, body, consts, extern_types=None, d
         term = '(let acc : list (N * N) := nil in %s)' % term
     sig = [x.replace(': R)', ': %s)' % rt).replace('-> R)', '-> %s)' % rt) for x in sig]
     return 'Definition gen_%s %s : %s :=\n  %s.\n' % (ident(name), ' '.join(sig), rt, term), [i for (i, _) in c.externs] + [p for (p, _) in plist]
+
+
+def lifted_module(c, name, plist, term):
+    """lifted mode: `Module <name>` with the record of everything the function consults (uninterpreted callees, caller memory,
+    fresh values, then its own parameters), one definition per continuation, `run` and `app`"""
+    c.externs.sort(key=lambda x: x[0])
+    rt = '(N * list (N * N))'
+    fields = []
+    for (i, kd) in c.externs:
+        if isinstance(kd, tuple):
+            t = ' -> '.join(list(kd[1]) + [kd[2]])
+        else:
+            t = kd
+        fields.append((i, t.replace('R', rt) if t == 'R' or t.endswith('-> R') else t))
+    enames = [i for (i, _) in fields]
+    clash = set(enames) & ({p for (p, _) in plist} | {v for k in c.kfv.values() for (v, _) in k})
+    if clash:
+        raise Unsupported('a local is named like an uninterpreted value: ' + sorted(clash)[0])
+    pat = re.compile(r'(?<![A-Za-z0-9_\.])(' + '|'.join(re.escape(x) for x in sorted(enames, key=len, reverse=True)) + r')(?![A-Za-z0-9_])') if enames else None
+    sub = (lambda t: pat.sub(lambda m: '(%s e)' % m.group(1), t)) if pat else (lambda t: t)
+    short = name.split('::')[-1]
+    out = ['Module %s.' % short]
+    out.append('  Record env := mk { %s }.' % ' ; '.join('%s : %s' % (b, t) for b, t in fields + [(p, t) for (p, t) in plist]))
+    for d in c.lifted:
+        head, body = d.split(':=\n', 1)
+        out.append('  ' + head + ':=\n' + sub(body))
+    out.append('  Definition run (e : env) %s: %s :=\n    (let acc : list (N * N) := nil in %s).' % (''.join('(%s : %s) ' % p for p in plist), rt, sub(term)))
+    out.append('  Definition app (e : env) : %s := run e %s.' % (rt, ' '.join('(%s e)' % p for (p, _) in plist)))
+    # an all-zero environment and one setter per field, for the examples that show the theorems' premises can be met
+    allf = fields + [(p, t) for (p, t) in plist]
+    out.append('  Definition default : env := mk %s.' % ' '.join(zero_of(t) for _, t in allf))
+    for i, (b, t) in enumerate(allf):
+        out.append('  Definition set_%s (v : %s) (e : env) : env := mk %s.' % (b, t, ' '.join('v' if j == i else '(%s e)' % bb for j, (bb, _) in enumerate(allf))))
+    out.append('End %s.' % short)
+    return '\n'.join(out) + '\n', enames + [p for (p, _) in plist]
 
 
 def split_arrows(t):
@@ -995,12 +1412,17 @@ def zero_of(t):
     return ('(fun %s => %s)' % (' '.join('_' for _ in parts[:-1]), z)) if len(parts) > 1 else z
 
 
-def env_module(name, fn, binders):
+def env_module(name, fn, binders, setters=True):
     """Coq text of `Module <name>`: the record of the function's named parameters, `app`, an all-zero `default` and one
     setter per field, so that hand-written files name only the fields they care about"""
     out = ['Module %s.' % name]
     out.append('  Record env := mk { %s }.' % ' ; '.join('%s : %s' % (b, t) for b, t in binders))
     out.append('  Definition app (e : env) := %s %s.' % (fn, ' '.join('(%s e)' % b for b, _ in binders)))
+    if not setters:
+        # a function whose theorems quantify over every environment: no default, no setters (their text grows quadratically)
+        out.append('  Ltac open_env := cbv beta iota delta [app %s %s].' % (fn, ' '.join(b for b, _ in binders)))
+        out.append('End %s.' % name)
+        return out
     out.append('  Definition default : env := mk %s.' % ' '.join(zero_of(t) for _, t in binders))
     for i, (b, t) in enumerate(binders):
         out.append('  Definition set_%s (v : %s) (e : env) : env := mk %s.' % (b, t, ' '.join('v' if j == i else '(%s e)' % bb for j, (bb, _) in enumerate(binders))))
